@@ -25,12 +25,19 @@ var codecWriter = &xWriter{
 		"bWriteU32":         {"go_emit_u32", []int{1}},
 		"bWriteU64":         {"go_emit_u64", []int{1}},
 		"b.buf.WriteString": {"go_emit_bytes", []int{0}},
+		"b.buf.Write":       {"go_emit_bytes", []int{0}},
 	},
 	Calls: map[string]string{"b.WriteHead": "tr_WriteHead", "b.WriteInt8": "tr_WriteInt8", "b.WriteInt16": "tr_WriteInt16",
 		"b.WriteInt32": "tr_WriteInt32", "b.WriteInt64": "tr_WriteInt64"},
 }
 
 // codec.Reader: the bytes.Reader inside is abstracted to (underlying bytes, position), see GoSem.go_reader
+// tup.UniAttribute.Encode writes through a *codec.Buffer parameter: its methods are the translated units
+var tupWriter = &xWriter{
+	Prims: map[string]xPrim{},
+	Calls: map[string]string{"os.WriteHead": "tr_WriteHead", "os.WriteInt32": "tr_WriteInt32", "os.WriteString": "tr_WriteString", "os.WriteBytes": "tr_WriteBytes"},
+}
+
 var codecReader = &xStateSpec{
 	Type:   "go_reader",
 	Fields: map[string]xStField{"b.depth": {"rd_depth", "go_rd_set_depth"}, "b.ref": {"rd_ref", ""}},
@@ -82,6 +89,7 @@ var xUnits = []xUnit{
 	{Name: "tr_WriteString", Dir: "tars/protocol/codec", Func: "Buffer.WriteString", Writer: codecWriter},
 	{Name: "tr_WriteFloat32", Dir: "tars/protocol/codec", Func: "Buffer.WriteFloat32", Writer: codecWriter},
 	{Name: "tr_WriteFloat64", Dir: "tars/protocol/codec", Func: "Buffer.WriteFloat64", Writer: codecWriter},
+	{Name: "tr_WriteBytes", Dir: "tars/protocol/codec", Func: "Buffer.WriteBytes", Writer: codecWriter},
 	// selector.BuildStaticWeightList up to the scaling range: static-weight check, min / max weight, guard, clamp
 	{Name: "tr_BSWL_range", Dir: "tars/selector", Func: "BuildStaticWeightList", From: "^", To: "if minWeight > 0 {",
 		Outs: []string{"maxRange", "totalWeight", "minWeight", "maxWeight"}},
@@ -153,6 +161,12 @@ var xUnits = []xUnit{
 		Outs: []string{}, After: []string{},
 		Reads: map[string]xOracle{"msg.Status": {"msg_status", "Z"}, "msg.Resp.IRet": {"rsp_ret", "Z"}, "msg.Resp.SResultDesc": {"rsp_desc", "list N"}},
 		Funcs: map[string]xOracle{"fmt.Sprintf": {"sprintf_", "list N -> Z -> list N"}}},
+	// C05T: tup.UniAttribute.Encode: the map head with the count, and what is written per entry (the order of the entries is Go's map order)
+	{Name: "tr_tup_Encode_head", Dir: "tars/protocol/tup", Func: "UniAttribute.Encode", Writer: tupWriter,
+		From: "^", To: "err = os.WriteInt32(int32(len(u.data)), 0)", Outs: []string{"err"},
+		Oracles: map[string]xOracle{"len(u.data)": {"count", "Z"}}},
+	{Name: "tr_tup_Encode_entry", Dir: "tars/protocol/tup", Func: "UniAttribute.Encode", Writer: tupWriter, Deep: true,
+		From: "err = os.WriteString(k, 0)", To: "err = os.WriteBytes(v)", Outs: []string{"err"}, After: []string{"if err != nil {\n\treturn err\n}"}},
 	{Name: "tr_cli_recv_chunk", Dir: "tars/transport", Func: "connection.recv", Deep: true, Fuel: true,
 		From: "currBuffer = append(currBuffer, buffer[:n]...)", To: "for {", Outs: []string{"currBuffer"}, After: []string{}, Fresh: []string{"currBuffer"},
 		Writer: &xWriter{Type: "list (list N)", Prims: map[string]xPrim{"c.client.protocol.Recv": {"go_deliver", []int{0}}}},
